@@ -51,18 +51,18 @@ QuickModes == << Mode(Wide,   LookAll, 3, 1, FALSE, 0),
                  Mode(TblKey, LookTbl, 4, 1, FALSE, 2),
                  Mode(TblKey, LookTbl, 4, 1, FALSE, 3) >>
 
-\* thorough tier, exhaustive part: every vector up to length 4 (12-value
-\* pool), 6 (5 values), 5 (neutral values), 8 (one value per type); every
-\* sorted vector up to length 6 (9 values) and 8 (6 values); tables up to
-\* 6 x 4
-BigModes == << Mode(Wide,   LookAll, 4, 1, FALSE, 0),
-               Mode({Num(-2), Num(1), Sa, SA, Tr}, LookAll, 6, 1, FALSE, 0),
+\* thorough tier, exhaustive part: every vector up to length 4 (10 values),
+\* 6 (4 values), 5 (neutral values), 8 (one value per type); every sorted
+\* vector up to length 6 (9 values) and 8 (6 values); tables 4 x 2, 5 x 3
+\* and 6 x 4
+BigModes == << Mode(Wide \ {Sab, SA}, LookAll, 4, 1, FALSE, 0),
+               Mode({Num(-2), Num(1), Sa, Tr}, LookAll, 6, 2, FALSE, 0),
                Mode(Neutr \ {Err("#N/A")}, LookAll, 5, 1, FALSE, 0),
-               Mode({Num(1), Sa, Tr}, LookAll, 8, 2, FALSE, 0),
+               Mode({Num(1), Sa, Tr}, LookAll, 8, 1, FALSE, 0),
                Mode(Sorted, LookAll, 6, 1, TRUE,  0),
                Mode({Num(-2), Num(1), Sa, SA, Fa, Tr}, LookAll, 8, 1, TRUE, 0),
-               Mode(TblKey \ {Sb}, LookTbl, 6, 1, FALSE, 2),
-               Mode(TblKey \ {Sb}, LookTbl, 6, 1, FALSE, 3),
+               Mode(TblKey \ {Sb}, LookTbl, 4, 1, FALSE, 2),
+               Mode(TblKey \ {Sb}, LookTbl, 5, 1, FALSE, 3),
                Mode(TblKey \ {Sb}, LookTbl, 6, 1, FALSE, 4) >>
 
 \* thorough tier, random part (tlc -simulate): any order, the wide pool up
